@@ -8,7 +8,7 @@ CONSTANTS
  PatchCL = TRUE
  Mut = "none"
  RecordHist = FALSE
+ Monitor = TRUE
  FullProduct = FALSE
-VIEW View
-INVARIANTS ChunkingInvariance PassThrough CloseWaits ContentLengthGone SelectionRule FaultSurfaces NoSilentTruncation NotExistSurfaces NoPartialInput
+INVARIANTS ChunkingInvariance PassThrough CloseWaits ContentLengthGone SelectionRule FaultSurfaces NoSilentTruncation NotExistSurfaces NoPartialInput MonitorQuiet MonitorFinal
 PROPERTIES NoWriteAfterClose CloseReturned
